@@ -9,6 +9,7 @@ if os.path.exists(root + '/results.tsv'):
         p = l.rstrip('\n').split(' ', 3)
         if len(p) >= 3 and p[1] != '-':
             res.setdefault(p[0], {})[p[1]] = (p[2], p[3] if len(p) > 3 else '')
+NEEDS = json.load(open(root + '/needs.json')) if os.path.exists(root + '/needs.json') else {}
 rows = []
 for d in sorted(glob.glob(root + '/C*-*')):
     name = os.path.basename(d)
@@ -22,7 +23,8 @@ for d in sorted(glob.glob(root + '/C*-*')):
     meta = {
         'seed': name, 'breaks_property': prop, 'files_touched': files,
         'ported_to_current_tree': os.path.exists(d + '/patch.ported.diff'),
-        'what_it_needs_to_manifest': 'see notes.md (section for change %s)' % name.split('-')[1],
+        'what_the_change_does': NEEDS.get(name, {}).get('change', 'see notes.md'),
+        'what_it_needs_to_manifest': NEEDS.get(name, {}).get('needs', 'see notes.md (section for change %s)' % name.split('-')[1]),
         'confirmation': conf,
         'what_was_run': 'tools/confirm_seed.sh %s %s (patch applies; repository stable tests pass with it; demo passes on the pristine tree and fails with the change); tools/mutant_run.sh %s <checks>' % (prop, name.split('-')[1], name),
         'checks': {c: {'verdict': v, 'signature': s} for c, (v, s) in sorted(res.get(name, {}).items())},
